@@ -1,0 +1,34 @@
+// SPDX-FileCopyrightText: 2022-present Intel Corporation
+//
+// SPDX-License-Identifier: Apache-2.0
+
+//go:build verif
+
+// Verification hooks: constructors and wrappers used only by the external verification harness
+// (built with -tags verif).  Nothing here changes the behaviour of the package.
+
+package gnmi
+
+import (
+	"github.com/onosproject/onos-config/pkg/pluginregistry"
+	sb "github.com/onosproject/onos-config/pkg/southbound/gnmi"
+	"github.com/onosproject/onos-config/pkg/store/topo"
+	"github.com/onosproject/onos-config/pkg/store/v2/configuration"
+	"github.com/onosproject/onos-config/pkg/store/v2/proposal"
+	"github.com/onosproject/onos-config/pkg/store/v2/transaction"
+	"github.com/openconfig/gnmi/proto/gnmi"
+)
+
+// NewServerForVerif returns the gNMI server with the given Set size limit, without a gRPC listener
+func NewServerForVerif(topo topo.Store, transactions transaction.Store, proposals proposal.Store, configurations configuration.Store,
+	pluginRegistry pluginregistry.PluginRegistry, conns sb.ConnManager, setSizeLimit int) *Server {
+	return &Server{pluginRegistry: pluginRegistry, topo: topo, transactions: transactions, proposals: proposals,
+		configurations: configurations, conns: conns, gnmiSetSizeLimit: setSizeLimit}
+}
+
+// SplitSubscribeRequestForVerif exposes splitSubscribeRequest: the per-target requests of one subscribe request
+func SplitSubscribeRequestForVerif(req *gnmi.SubscribeRequest) (map[string]*gnmi.SubscribeRequest, error) {
+	sctx := &subContext{}
+	err := splitSubscribeRequest(sctx, req)
+	return sctx.treqs, err
+}
